@@ -464,7 +464,9 @@ pub fn run_scenario(sc: &Scenario) -> RunReport {
         // ---- host calls vs in-language calls on the functions the session bound
         // (language call on the incremental interpreter, host call on the equal-state replica, so that
         // stateful functions see the same history on both sides)
-        if let (true, Some((at, binterp))) = (sc.probe_calls, replica.as_ref().filter(|r| r.0 == fed)) {
+        // Only when the session ran to its end on both routes: after an inconclusive stop the
+        // incremental interpreter may hold bindings of a partly executed input.
+        if let (true, Some((at, binterp))) = (sc.probe_calls && alive, replica.as_ref().filter(|r| r.0 == fed)) {
             let _ = at;
             let fnames: Vec<String> = names.iter().filter(|n| matches!(interp.get_variable(n), Some(Variable::Function(_)))).cloned().collect();
             for n in fnames {
